@@ -61,6 +61,9 @@ PROPS = {
             E("chunk_exh", "e_chunk.c", model="chunk", quick=dict(cases=1845, args=["exh"], chunk=30), thorough=dict(cases=1845, seeds=1, args=["exh"], chunk=30)),
             # cross-configuration oracle: one write/read history on contiguous, chunked, compressed, chunked+compressed, n-bit, external (HXsetdir list),
             # unlimited+linked blocks, small DD blocks, access type; every configuration must read what the contiguous baseline reads (no model involved)
+            # for every number type of the SD interface (char8/uchar8 .. float64) x {standard, native, little-endian} flavour (64-bit types offered, refused by SDcreate),
+            # with and without a user fill value: never-written cells are compared too and must be the documented default of the base type; SDreadchunk of every
+            # chunk (written or not, also after a read-only reopen) against baseline / hyperslab / shadow / fill incl. the cells outside the extent; SDwritechunk in the history
             E("layout", "e_layout.c", model=None, quick=dict(cases=800, chunk=50), thorough=dict(cases=12000, seeds=4, chunk=300)),
         ],
         trusted_base=["mcache.c page cache and the chunk table Vdata/TBBT: not modelled here (chunk store = map chunk number -> buffer); "
@@ -109,7 +112,7 @@ PROPS = {
             E("an", "e_an.c", model="an", quick=dict(cases=300, chunk=25), thorough=dict(cases=4000, seeds=4, chunk=50)),
         ],
         trusted_base=["DD layer (Htagnewref/Hputelement/Hstartwrite/HDreuse_tagref) below the annotation tables: not modelled; refs handed out by Htagnewref are inputs of the model", "atom layer (annotation ids): an annotation is identified by (type, ref) on the tie"],
-        assumptions=["single-threaded; even DD-block sizes only (Hnumber over-reads odd-sized DD blocks: a C12 finding); DFANclear() before each DFAN session (its directory cache is per file NAME)"],
+        assumptions=["single-threaded; even DD-block sizes only (Hnumber over-reads odd-sized DD blocks: a C12 finding); DFANclear() before each DFAN session (its directory cache is per file NAME); AN sessions on one file record follow each other (ANend before the next ANstart, also across two file ids), writers other than AN* act on the file only while no AN session is open (the trees are a per-session cache by design)"],
     ),
     "C13": dict(
         lean_props=["H4.Props.C13Atom", "H4.Props.C13Files"],
@@ -133,7 +136,7 @@ PROPS = {
         assumptions=["the workload library harness/workloads.h (16 workloads) is the quantification domain of the API-level enumeration; it is complete for that library, not for all programs"],
     ),
     "C06": dict(
-        lean_props=["H4.Props.C06"],
+        lean_props=["H4.Props.C06", "H4.Props.C06Fn"],
         engines=[
             E("conv", "e_conv.c", model="conv", quick=dict(cases=3000), thorough=dict(cases=40000, seeds=4, chunk=2500, args=[1], timeout=3000)),
         ],
